@@ -44,7 +44,7 @@ Definition step (st : rstate) (op : list tok) : rstate * list tok :=
   let c := rc st in
   match op with
   | TS name :: args =>
-    if name =? "blackbox" then (st, [])   (* a black-box scenario: replayed by the driver, nothing to model *)
+    if (name =? "blackbox") || (name =? "blackbox2") then (st, [])   (* a black-box scenario: replayed by the driver, nothing to model *)
     else if name =? "conv" then
       match args with
       | TN w :: TN mf :: TN _ :: TN inc :: TN peers :: chunks =>
